@@ -352,6 +352,32 @@ theorem C04_pending_registers_shutdown (e : Env) (F : Nat) (d d' : D) (w w' : Wo
   exact key 2 d w hp
 
 
+/-! ## the request-body channel wakes the task that polled it last -/
+
+/-- **C04_payload_wakes_last_poller.** Whatever happened to the payload before — in particular
+whichever task's waker is still stored from an earlier poll — once task `who` has polled the
+request body to `Pending`, the next `feed_data` wakes `who` (the connection task's wake flag, or
+the consumer task's own waker): `Inner::register` replaces a stored waker that would not wake
+the current poller.  A handler may therefore read the beginning of an upload itself and hand the
+stream to another task. -/
+theorem C04_payload_wakes_last_poller (w : World) (rid n : Nat) (who : Who)
+    (h : rid < w.chans.length) (ha : (w.chan rid).readerAlive = true)
+    (hp : (chanPollNext w rid who).1 = .pending) :
+    wokenOf who (feedData (chanPollNext w rid who).2 rid n) = true := by
+  obtain ⟨ht, hal⟩ := chanPollNext_registers w rid who h hp
+  have hl : rid < (chanPollNext w rid who).2.chans.length := by
+    rw [chanPollNext_length]; exact h
+  exact feedData_wakes _ rid n who hl (hal.trans ha) ht
+
+/-- non-vacuity + the seeded scenario: the connection task polled first (its waker is stored),
+then the consumer task polls to `Pending`; data wakes the consumer task -/
+example :
+    let w0 : World := { chans := [{}] }
+    let w1 := (chanPollNext w0 0 .conn).2
+    let w2 := (chanPollNext w1 0 .consumer).2
+    (chanPollNext w1 0 .consumer).1 = .pending ∧ (w1.chan 0).task = some .conn ∧
+    (feedData w2 0 5).consumerWoken = true ∧ (feedData w2 0 5).woken = false := by decide
+
 /-! ## the executor never reports a stall while bytes are unflushed or a shutdown is in flight -/
 
 open ActixModel.Exec
